@@ -223,7 +223,7 @@ def MiniR : RApi where
     -- `HtmlRewriter::new` panics (debug assertion, F5) when the preallocation exceeds the limit
     if cfg.mem.prealloc > cfg.mem.max then .error [0x6d]
     else
-      let hs := cfg.doc.filterMap (·.docEnd)
+      let hs := (cfg.doc.filterMap (·.docEnd)).reverse   -- handlers_dispatcher.rs:121 `.rev()`
       .ok { endEvs := if hs.isEmpty then [] else [⟨{ kind := .docEnd }, hs⟩] }
   step := miniStep
   drop := fun _ => []
